@@ -109,7 +109,7 @@ def storeExpr (d : StructDef) (f : Field) : String :=
   | .sizeRef w s _ _ => toBytesCall ("self." ++ attr ++ "_computed") w s
   | .ref _ _ => "self._" ++ attr ++ ".serialize()"
   | .barray _ => "self._" ++ attr
-  | .array _ mode align padLast sortKey =>
+  | .array _ _ align padLast sortKey =>
     if align != 0 then
       "ArrayHelpers.write_variable_size_elements(self._" ++ attr ++ ", " ++ toString align ++
         ", skip_last_element_padding=" ++ pyBool (!padLast) ++ ")"
